@@ -336,7 +336,7 @@ func drawReprs(t *rapid.T, tr *gen.Tree) {
 func genRepr(t *rapid.T) ReprCase {
 	o := genOptSet(t, 2)
 	c := ReprCase{O: &o, Scheme: rapid.IntRange(0, nSchemes-1).Draw(t, "scheme")}
-	cfg := &gen.TreeCfg{Depth: runlog.Pick(3, 5), Width: runlog.Pick(4, 6), Keys: append(append(reprKeys(o), drawOdd(t, o)...), drawUni(t, o)...), Strings: gen.HostileStrings, Reprs: true}
+	cfg := &gen.TreeCfg{Depth: runlog.Pick(3, 5), Width: runlog.Pick(4, 6), Keys: append(append(reprKeys(o), drawOdd(t, o)...), append(drawUni(t, o), drawWord(t, o)...)...), Strings: gen.HostileStrings, Reprs: true}
 	if rapid.IntRange(0, 4).Draw(t, "toplist") == 0 {
 		c.T = gen.GenList(t, cfg, cfg.Depth)
 	} else {
@@ -489,7 +489,7 @@ func runRepr(c ReprCase, r *runlog.R) error {
 
 var subRepr = runlog.Register(&runlog.Sub[ReprCase]{
 	Name: "repr-roundtrip",
-	Rule: "an option set (no PathSep or one of 37 separators: single characters incl. regexp/printf metacharacters, multi-character and multi-byte ones; EnableNumKeys; MaxIdx 0/1/2/5/4000; StructTag with one of 4 tag names; EscapePath; options in either order) and a random tree (hostile strings, nil, empty containers, keys incl. blank/empty/integer literals, keys holding other separators or parts of the separator, bracketed keys holding the separator with and without EscapePath; under every option set the empty name and, per case, three names from the edge of the key alphabet: blanks and names with leading/trailing white space, integer literals not in plain decimal (+1 -0 00 0x1 010 1_0: list indices by strconv base 0), numeric-looking names that are no index (-1, 2^63-1, 10^30, an Arabic-Indic digit), upper-case names, a name of 300 bytes, the separators of the other option sets; with a separator also the dotted keys \"<sep>x\", \"x<sep>\", \"<sep>\", \"a<sep><sep>c\", which spell paths through the empty name) built in 3-4 mixed Go representations (as drawn, generic, 1-2 alternative choice vectors: generic/interface-keyed/named/typed maps, slices, arrays, StructOf structs with typed fields whose keys are spread over tagged fields and inline members (maps of 4 kinds, struct, *struct, nested inline struct, interface{} field), every field tagged under the selected one of 4 tag names, which carries the keys, and under one other, which carries another name - or, for keys that are lower-cased identifiers (a, é, öl, ärmel, a Georgian and a Deseret letter: first letters of 1-4 bytes; one such key is in the alphabet of every case), no tag and the key with its first letter upper-cased as Go field name -; the Go names of tagged fields and inline members are taken from one of 8 alphabets per struct (F0.. M0.., or an upper-case first letter of 2 bytes (Latin-1, Greek, Latin Extended, a digraph), 3 bytes (Georgian Mtavruli) or 4 bytes (Deseret)); one struct in four also has an unexported field (lower-case ASCII / non-ASCII, caseless, title-case or underscore first letter) that is tagged with the key of the first field and holds int 0, which is no part of the data; 1-3 pointer levels, *Config also rebranded as type T ucfg.Config, maps with a named string key type; interface-keyed maps of 4 Go types (map[interface{}]interface{}, a named one, key type a named empty interface, key type an interface with a method) whose keys are strings and values of three named string types, mixed from key to key; numbers drawn over the whole range of every sized Go kind - the boundaries of int8..int64 / uint8..uint64 and their neighbours, any value in between, any float32 widened exactly (4 of 5 are not the float64 of their shortest decimal text), any float64, +-Inf, -0, no NaN - and given in their natural type, in any sized kind that holds them exactly (int8/16/32/64/int, uint8/16/32/64/uint, float32), in a named type of any of these kinds, named string/bool, behind 1-2 pointers; the primitives of a typed map, slice or array are built in one kind that holds them all ([]float32, [N]int8, map[string]uint16, []*nI32 ...); nil as untyped nil, nil *int / *interface{} / **int, a **int to a nil *int, nil map / slice / named slice, nil pointer to map, struct, Config, slice, array; around any node, the top level included, and around inline members a chain of up to 4 links, each a typed pointer, a pointer to an interface{} variable or a pointer to a variable of a named interface type, in any alternation (*interface{} and **interface{} struct fields, []interface{} element holding *interface{} holding *T, pointer to a nil interface ...); typed containers whose children share no Go type with every child boxed: map[string]*interface{}, []*interface{}, [N]*interface{}); numbers compare by exact value; for each: the generic view of NewFrom(repr, options) equals the tree the model computes from T under the options (integer literals are list indices unless numeric keys are enabled or they exceed MaxIdx; brackets of an escaped key may stay or go; an empty segment of a dotted key is the empty name; two literals of one index in one object define one element twice: ErrDuplicateKey for two primitives, either outcome if one of them is a nil, which may be built as an empty container here), also through an interface{}-typed struct field; NewFrom(Dump) has the same generic view and the same hook fingerprint (nil = absent = empty; byte-identical when T has no nil/empty/index keys). Values are not compared when a node has names next to a list part under EnableNumKeys or beyond MaxIdx. Non-trivial: at least 2 different container representations other than the generic map[string]interface{} / []interface{} occur in the case. Distinct: hash of the case.",
+	Rule: "an option set (no PathSep or one of 37 separators: single characters incl. regexp/printf metacharacters, multi-character and multi-byte ones; EnableNumKeys; MaxIdx 0/1/2/5/4000; StructTag with one of 4 tag names; EscapePath; options in either order) and a random tree (hostile strings, nil, empty containers, keys incl. blank/empty/integer literals, keys holding other separators or parts of the separator, bracketed keys holding the separator with and without EscapePath; under every option set the empty name and, per case, three names from the edge of the key alphabet: blanks and names with leading/trailing white space, integer literals not in plain decimal (+1 -0 00 0x1 010 1_0: list indices by strconv base 0), numeric-looking names that are no index (-1, 2^63-1, 10^30, an Arabic-Indic digit), upper-case names, a name of 300 bytes, the separators of the other option sets; with a separator also the dotted keys \"<sep>x\", \"x<sep>\", \"<sep>\", \"a<sep><sep>c\", which spell paths through the empty name) built in 3-4 mixed Go representations (as drawn, generic, 1-2 alternative choice vectors: generic/interface-keyed/named/typed maps, slices, arrays, StructOf structs with typed fields whose keys are spread over tagged fields and inline members (maps of 4 kinds, struct, *struct, nested inline struct, interface{} field), every field tagged under the selected one of 4 tag names, which carries the keys, and under one other, which carries another name - or, for keys that are lower-cased identifiers (a, é, öl, ärmel, a Georgian and a Deseret letter: first letters of 1-4 bytes; one such key is in the alphabet of every case), no tag and the key with its first letter upper-cased as Go field name -; the Go names of tagged fields and inline members are taken from one of 8 alphabets per struct (F0.. M0.., or an upper-case first letter of 2 bytes (Latin-1, Greek, Latin Extended, a digraph), 3 bytes (Georgian Mtavruli) or 4 bytes (Deseret)); one struct in four also has an unexported field (lower-case ASCII / non-ASCII, caseless, title-case or underscore first letter) that is tagged with the key of the first field and holds int 0, which is no part of the data; every second struct writes option lists in its tags, under every tag name: around the option that shapes the field (inline/squash of a member, the squash inside a nested inline struct, ignore; none for a named field) stand 1-3 further words, before and/or after it - the merge-handling options merge/replace/append/prepend, which say nothing about the data, the shaping option a second time (\",inline,squash\", \"x,ignore,ignore\"), words that are no option (omitempty, x, nothing between two commas or after the last one) -, 13 such lists mixed from field to field by a seed (\"a,replace\" \",merge,inline\" \",append,squash,prepend\" \",inline,,append\" \"a,\" \",omitempty,replace,ignore,merge\" ...), a field without tag may carry options without a name (\",replace\": the lower-cased Go name applies); one struct in four (and its inline struct members) has one more exported field with the option ignore, alone or in such a list, named like the first field or unnamed, first or last, holding a string or a map: no part of the data; every second case has one key that spells an option word (inline ignore replace squash merge append prepend omitempty) and is the NAME of a tag or the Go name of a field without tag; 1-3 pointer levels, *Config also rebranded as type T ucfg.Config, maps with a named string key type; interface-keyed maps of 4 Go types (map[interface{}]interface{}, a named one, key type a named empty interface, key type an interface with a method) whose keys are strings and values of three named string types, mixed from key to key; numbers drawn over the whole range of every sized Go kind - the boundaries of int8..int64 / uint8..uint64 and their neighbours, any value in between, any float32 widened exactly (4 of 5 are not the float64 of their shortest decimal text), any float64, +-Inf, -0, no NaN - and given in their natural type, in any sized kind that holds them exactly (int8/16/32/64/int, uint8/16/32/64/uint, float32), in a named type of any of these kinds, named string/bool, behind 1-2 pointers; the primitives of a typed map, slice or array are built in one kind that holds them all ([]float32, [N]int8, map[string]uint16, []*nI32 ...); nil as untyped nil, nil *int / *interface{} / **int, a **int to a nil *int, nil map / slice / named slice, nil pointer to map, struct, Config, slice, array; around any node, the top level included, and around inline members a chain of up to 4 links, each a typed pointer, a pointer to an interface{} variable or a pointer to a variable of a named interface type, in any alternation (*interface{} and **interface{} struct fields, []interface{} element holding *interface{} holding *T, pointer to a nil interface ...); typed containers whose children share no Go type with every child boxed: map[string]*interface{}, []*interface{}, [N]*interface{}); numbers compare by exact value; for each: the generic view of NewFrom(repr, options) equals the tree the model computes from T under the options (integer literals are list indices unless numeric keys are enabled or they exceed MaxIdx; brackets of an escaped key may stay or go; an empty segment of a dotted key is the empty name; two literals of one index in one object define one element twice: ErrDuplicateKey for two primitives, either outcome if one of them is a nil, which may be built as an empty container here), also through an interface{}-typed struct field; NewFrom(Dump) has the same generic view and the same hook fingerprint (nil = absent = empty; byte-identical when T has no nil/empty/index keys). Values are not compared when a node has names next to a list part under EnableNumKeys or beyond MaxIdx. Non-trivial: at least 2 different container representations other than the generic map[string]interface{} / []interface{} occur in the case. Distinct: hash of the case.",
 	Gen:  genRepr,
 	Run:  runRepr,
 })
@@ -698,6 +698,9 @@ func showOrderedAs(t *gen.Tree, nilConts bool) string {
 				if t.R&decoyBit != 0 {
 					b.WriteString("; unexported field")
 				}
+				if tg := showTags(t); tg != "" {
+					b.WriteString("; " + tg)
+				}
 				for run := range layoutOf(t) {
 					if w := (t.R >> (inlineShift + 4*run)) & 15; w != 0 {
 						fmt.Fprintf(&b, "; member %d @%s", run, showLinks(w))
@@ -846,7 +849,7 @@ func runFlat(c FlatCase, r *runlog.R) error {
 	return nil
 }
 
-const flatRule = "an option set with a separator (37 separators: \".\", other single characters incl. every regexp and printf metacharacter, blank, comma, multi-character ones such as \"::\" \"->\" \"..\" \"%s\" \".*\", multi-byte runes; plus EnableNumKeys, MaxIdx 0/1/2/5/4000, StructTag with one of 4 tag names, EscapePath, options in either order) and a random tree T over keys {a,b,c,d,0,1} plus keys that hold parts of the separator or other separators and stay whole (and, without EscapePath, a bracketed key that is split like any other) plus, at every depth, the empty name and three names per case from the edge of the key alphabet (blanks and names with leading/trailing white space; integer literals not in plain decimal such as +1 -0 00 0x1 010 1_0, which are list indices by strconv base 0; numeric-looking names that are no index: -1, 2^63-1, 10^30, an Arabic-Indic digit; upper-case names; a name of 300 bytes; the separators of the other option sets), the empty name below the empty name more often than by chance; every leaf path is cut into dotted groups independently (so any subset of the object edges, and of the list edges as index segments, is written dotted, next to nested spellings of sibling parts; a path through the empty name is joined like any other, giving keys such as \"a..c\", \".x\", \"x.\", \"a..\", \".\" under \".\" and \"a->->c\" under \"->\" - only next to a separator that overlaps itself (\"::\", \"..\", \"--\") the empty name stays nested, as \"a::::c\" is not clear), numbers, nils and pointer/interface chains around nodes and inline members as in repr-roundtrip (every sized and named Go kind over its whole range incl. float32 values that are no short decimals; typed nil pointers; chains of up to 4 typed-pointer / pointer-to-interface links in any alternation; boxed children of typed containers), objects are generic maps (1/2), structs (1/4: keys in tags, spread in their stated order over runs of tagged fields and inline members - inline maps of 4 kinds, inline struct, *struct, nested inline struct, interface{} field - so that inline members overlap sibling fields; all fields tagged under the selected one of 4 tag names, which carries the keys, and under one other, which carries another name) or any other representation (interface-keyed maps with keys of mixed dynamic types, typed maps, pointers, *Config; Go field names, unexported fields and key types as in repr-roundtrip); the spelled input F is the case, with its key insertion orders; run: F as stated plus every insertion order of the keys of every object in which two keys start with the same segment (all n! up to 4 keys, rotations and reversal above, at most 48 inputs; 8 repetitions each in replay mode) under the options must give the tree computed from F by an order-free, representation-free model (split keys at every occurrence of the separator - an empty segment is the empty name, nothing is trimmed or folded -, union, integer segments in [0,MaxIdx] are list indices except single-segment keys under EnableNumKeys; two literals of one index are one element), the same normalised hook fingerprint as NewFrom(nested tree), and be stable when fed back. Values are not compared when a node has names next to a list part under EnableNumKeys or beyond MaxIdx."
+const flatRule = "an option set with a separator (37 separators: \".\", other single characters incl. every regexp and printf metacharacter, blank, comma, multi-character ones such as \"::\" \"->\" \"..\" \"%s\" \".*\", multi-byte runes; plus EnableNumKeys, MaxIdx 0/1/2/5/4000, StructTag with one of 4 tag names, EscapePath, options in either order) and a random tree T over keys {a,b,c,d,0,1} plus keys that hold parts of the separator or other separators and stay whole (and, without EscapePath, a bracketed key that is split like any other) plus, at every depth, the empty name and three names per case from the edge of the key alphabet (blanks and names with leading/trailing white space; integer literals not in plain decimal such as +1 -0 00 0x1 010 1_0, which are list indices by strconv base 0; numeric-looking names that are no index: -1, 2^63-1, 10^30, an Arabic-Indic digit; upper-case names; a name of 300 bytes; the separators of the other option sets), the empty name below the empty name more often than by chance; every leaf path is cut into dotted groups independently (so any subset of the object edges, and of the list edges as index segments, is written dotted, next to nested spellings of sibling parts; a path through the empty name is joined like any other, giving keys such as \"a..c\", \".x\", \"x.\", \"a..\", \".\" under \".\" and \"a->->c\" under \"->\" - only next to a separator that overlaps itself (\"::\", \"..\", \"--\") the empty name stays nested, as \"a::::c\" is not clear), numbers, nils and pointer/interface chains around nodes and inline members as in repr-roundtrip (every sized and named Go kind over its whole range incl. float32 values that are no short decimals; typed nil pointers; chains of up to 4 typed-pointer / pointer-to-interface links in any alternation; boxed children of typed containers), objects are generic maps (1/2), structs (1/4: keys in tags, spread in their stated order over runs of tagged fields and inline members - inline maps of 4 kinds, inline struct, *struct, nested inline struct, interface{} field - so that inline members overlap sibling fields; all fields tagged under the selected one of 4 tag names, which carries the keys, and under one other, which carries another name) or any other representation (interface-keyed maps with keys of mixed dynamic types, typed maps, pointers, *Config; Go field names, unexported fields, key types, option lists in tags (>=2 options per tag, the shaping option at any place), ignored exported fields and keys that spell option words as in repr-roundtrip); the spelled input F is the case, with its key insertion orders; run: F as stated plus every insertion order of the keys of every object in which two keys start with the same segment (all n! up to 4 keys, rotations and reversal above, at most 48 inputs; 8 repetitions each in replay mode) under the options must give the tree computed from F by an order-free, representation-free model (split keys at every occurrence of the separator - an empty segment is the empty name, nothing is trimmed or folded -, union, integer segments in [0,MaxIdx] are list indices except single-segment keys under EnableNumKeys; two literals of one index are one element), the same normalised hook fingerprint as NewFrom(nested tree), and be stable when fed back. Values are not compared when a node has names next to a list part under EnableNumKeys or beyond MaxIdx."
 
 var subFlat = runlog.Register(&runlog.Sub[FlatCase]{
 	Name: "flatten",
@@ -1076,7 +1079,7 @@ func runHist(c HistCase, r *runlog.R) error {
 
 var subHist = runlog.Register(&runlog.Sub[HistCase]{
 	Name: "option-history",
-	Rule: "an input as in flatten/duplicates (spelled with one of the 37 separators; 1/4 with a planted second definition; no embedded *Config; objects are structs more often) is built ONCE as a Go value whose struct types carry names under 4 tag names (one carries the keys, the others names derived by 6 schemes: suffix, rotated, first field ignored, first field unnamed, inline members named instead of inlined, prefixed with the separator); it is normalised under 2-3 option sets in sequence (separator: the spelling one, another one - every second time one that occurs in a key of the input, as a name of its own, inside a name, or made of the spelling separator like \"..\" in \"a..c\" - or none; struct tag: any of the 4 or none; EnableNumKeys, MaxIdx, EscapePath; through NewFrom or New+Merge) and under the first one again; every step must give what the model computes for the tree as it reads under that step's tag and options (same verdict rules as duplicates), and the first step repeated at the end must give a byte-identical hook fingerprint. A step whose separator does not split some key of the input clearly (overlapping occurrences of the separator) is left out; empty segments are clear (the empty name). Non-trivial: the expected outcome differs between at least two of the steps. Distinct: hash of the case.",
+	Rule: "an input as in flatten/duplicates (spelled with one of the 37 separators; 1/4 with a planted second definition; no embedded *Config; objects are structs more often) is built ONCE as a Go value whose struct types carry names under 4 tag names (one carries the keys, the others names derived by 6 schemes: suffix, rotated, first field ignored, first field unnamed, inline members named instead of inlined, prefixed with the separator; every second struct with option lists of 2-4 words in the tags of all four names, differing from tag name to tag name, one struct in four with an ignored exported field, as in repr-roundtrip); it is normalised under 2-3 option sets in sequence (separator: the spelling one, another one - every second time one that occurs in a key of the input, as a name of its own, inside a name, or made of the spelling separator like \"..\" in \"a..c\" - or none; struct tag: any of the 4 or none; EnableNumKeys, MaxIdx, EscapePath; through NewFrom or New+Merge) and under the first one again; every step must give what the model computes for the tree as it reads under that step's tag and options (same verdict rules as duplicates), and the first step repeated at the end must give a byte-identical hook fingerprint. A step whose separator does not split some key of the input clearly (overlapping occurrences of the separator) is left out; empty segments are clear (the empty name). Non-trivial: the expected outcome differs between at least two of the steps. Distinct: hash of the case.",
 	Gen:  genHist,
 	Run:  runHist,
 })
